@@ -1,4 +1,5 @@
 import LyModel.Diff.K13Rev
+import LyModel.Diff.K13RevSwitch
 import LyModel.Diff.Lemmas13Merge
 /-!
 # C13 over keyed lists: the round trip at the top level, and the link from the merge cells to `applyNode`
@@ -23,7 +24,7 @@ theorem reverse_roundtrip {S : Schema} {fx : Fixes} (K : KeyOrderOn S P) {A D : 
   rw [hdk] at hB hloc1 hback
   rw [hdkR] at hback
   obtain ⟨A', hA', hgA', _, hloc2, hres⟩ := hback B hgB hkB (fun _ _ => rfl)
-  refine ⟨B, R, A', ?_, hgB, hR, hRh, ?_, ?_⟩
+  refine ⟨B, R, A', ?_, hgB, reverse_of_noUO (noUO_of_exactDiff hD) hR, hRh, ?_, ?_⟩
   · rw [apply_eq_applyF]; exact hB
   · rw [apply_eq_applyF, hRh]; exact hA'
   · apply normL_eq_of_look K (goodT_goodL hgA') (goodT_goodL hA)
